@@ -13,7 +13,9 @@ pub fn tag(c: &Case) -> String {
     if numel == 0 { format!("{}-empty", c.op) } else { c.op.clone() }
 }
 
-struct G { rng: SplitMix64 }
+/// `long`: shapes have one long axis (17..70) and otherwise extents 1..2, so that size-dependent
+/// fast paths (selection / sorting thresholds, chunked loops, SIMD widths) are reached.
+struct G { rng: SplitMix64, long: bool }
 
 impl G {
     fn dim(&mut self) -> usize {
@@ -22,7 +24,17 @@ impl G {
     }
     fn dim_pos(&mut self) -> usize { loop { let d = self.dim(); if d > 0 { return d; } } }
     fn rank(&mut self, lo: usize, hi: usize) -> usize { self.rng.range(lo as i64, hi as i64) as usize }
+    fn long_shape(&mut self, lo: usize, hi: usize) -> Vec<usize> {
+        loop {
+            let r = self.rank(lo.max(1), hi.clamp(1, 3));
+            let mut s: Vec<usize> = (0..r).map(|_| self.rng.range(1, 2) as usize).collect();
+            let k = self.rng.below(r as u64) as usize;
+            s[k] = if self.rng.chance(1, 2) { self.rng.range(21, 64) } else { self.rng.range(17, 70) } as usize;
+            if s.iter().product::<usize>() <= 160 { return s; }
+        }
+    }
     fn shape(&mut self, lo: usize, hi: usize) -> Vec<usize> {
+        if self.long { return self.long_shape(lo, hi); }
         loop {
             let r = self.rank(lo, hi);
             let s: Vec<usize> = (0..r).map(|_| self.dim()).collect();
@@ -30,6 +42,7 @@ impl G {
         }
     }
     fn shape_pos(&mut self, lo: usize, hi: usize) -> Vec<usize> {
+        if self.long { return self.long_shape(lo, hi); }
         loop {
             let r = self.rank(lo, hi);
             let s: Vec<usize> = (0..r).map(|_| self.dim_pos()).collect();
@@ -94,8 +107,8 @@ impl G {
 }
 
 fn gen_binary(g: &mut G) -> Case {
-    let ops = ["Add", "Sub", "Mul", "Div", "Mod", "Pow", "Equal", "Less", "LessOrEqual", "Greater", "GreaterOrEqual",
-               "And", "Or", "Xor"];
+    let ops = ["Add", "Sub", "Mul", "Div", "Div", "Mod", "Mod", "Mod", "Pow", "Equal", "Less", "LessOrEqual", "Greater",
+               "GreaterOrEqual", "And", "Or", "Xor"];
     let op = ops[g.rng.below(ops.len() as u64) as usize];
     let out = g.shape(0, 4);
     let (mut sa, mut sb) = if g.rng.chance(1, 3) { (out.clone(), out.clone()) } else { (g.bcast_operand(&out), g.bcast_operand(&out)) };
@@ -107,6 +120,35 @@ fn gen_binary(g: &mut G) -> Case {
     let logical = matches!(op, "And" | "Or" | "Xor");
     let dt = if logical { DType::Bool } else { g.num_dtype() };
     let mut c = Case::new(op, g.opset(&[13, 14, 17]));
+    if !logical && g.rng.chance(1, 3) {
+        // "edge algebra": zero results, negative operands, exact multiples (incl. a zero dividend) of
+        // divisors of both signs, equal operands for the comparisons; with and without broadcasting
+        let (sa, sb) = match g.rng.below(3) { 0 => (out.clone(), out.clone()), 1 => (out.clone(), vec![1usize; g.rank(0, 2)]), _ => (sa, sb) };
+        let (na, nb): (usize, usize) = (sa.iter().product(), sb.iter().product());
+        let float_div = dt == DType::F32 && op == "Div";
+        let db: Vec<i64> = (0..nb).map(|_| match op {
+            "Div" | "Mod" => if float_div { g.rng.pick(&[-4i64, -2, -1, -1, 1, 2]) } else { g.rng.pick(&[-5i64, -4, -3, -3, -2, -2, -1, 1, 2, 3, 5]) },
+            "Pow" => g.rng.range(0, 3),
+            _ => g.rng.pick(&[-8i64, -3, -1, 0, 0, 1, 2, 7]),
+        }).collect();
+        let exact = nb > 0 && (nb == 1 || (sa == sb));
+        let da: Vec<i64> = (0..na).map(|i| {
+            let bv = if nb == 0 { 1 } else { db[i % nb] };
+            match op {
+                "Div" | "Mod" => if exact || g.rng.chance(1, 2) { g.rng.range(-3, 3) * bv } else { g.rng.pick(&[0i64, 0, -6, 6, -12, 12, -7, 9]) },
+                "Pow" => g.rng.pick(&[-2i64, -1, 0, 0, 1, 2]),
+                "Add" => if g.rng.chance(1, 2) { -bv } else { g.rng.range(-2, 2) },
+                "Mul" => g.rng.pick(&[0i64, 0, -1, 1, -3]),
+                _ => if g.rng.chance(2, 3) { bv } else { bv + g.rng.range(-1, 1) },   // Sub and the comparisons
+            }
+        }).collect();
+        if op == "Mod" {
+            let fmod = dt == DType::F32 || g.rng.chance(1, 4);
+            if fmod || g.rng.chance(1, 3) { c = c.attr_i("fmod", fmod as i64); }
+        }
+        let (a, b) = (g.tv(dt, &sa, da), g.tv(dt, &sb, db));
+        return c.input(a).input(b);
+    }
     let (a, b) = match op {
         "And" | "Or" | "Xor" => (g.t(dt, &sa, 0, 1), g.t(dt, &sb, 0, 1)),
         "Div" => {
@@ -131,6 +173,30 @@ fn gen_binary(g: &mut G) -> Case {
         "Pow" => (g.t(dt, &sa, -3, 3), { let lo = if g.rng.chance(1, 20) { -1 } else { 0 }; g.t(dt, &sb, lo, 4) }),
         _ => (g.t(dt, &sa, -8, 8), g.t(dt, &sb, -8, 8)),
     };
+    c.input(a).input(b)
+}
+
+/// Div / Mod "edge algebra": divisors of both signs, dividends that are exact multiples k*divisor
+/// (k of both signs and 0) mixed with a few non-multiples; i32 / i64 / integer-valued f32; same
+/// shapes, a single-element divisor, or a divisor broadcast along the leading axes.
+fn gen_divmod(g: &mut G) -> Case {
+    let op = g.rng.pick(&["Mod", "Mod", "Div"]);
+    let dt = g.num_dtype();
+    let sa = g.shape_pos(1, 3);
+    let sb: Vec<usize> = match g.rng.below(3) { 0 => sa.clone(), 1 => vec![1usize; g.rank(0, 2)], _ => sa[sa.len() - 1..].to_vec() };
+    let (na, nb): (usize, usize) = (sa.iter().product(), sb.iter().product());
+    let float_div = dt == DType::F32 && op == "Div";
+    let db: Vec<i64> = (0..nb).map(|_| if float_div { g.rng.pick(&[-4i64, -2, -1, 1, 2, 4]) } else { g.rng.pick(&[-7i64, -5, -4, -3, -3, -2, -2, -1, 1, 2, 3, 4, 5]) }).collect();
+    let da: Vec<i64> = (0..na).map(|i| {
+        let bv = db[i % nb];   // the divisor this element meets (shapes are suffix-aligned)
+        if float_div || g.rng.chance(3, 4) { g.rng.range(-3, 3) * bv } else { g.rng.range(-15, 15) }
+    }).collect();
+    let mut c = Case::new(op, g.opset(&[13, 14]));
+    if op == "Mod" {
+        let fmod = dt == DType::F32 || g.rng.chance(1, 5);
+        if fmod || g.rng.chance(1, 3) { c = c.attr_i("fmod", fmod as i64); }
+    }
+    let (a, b) = (g.tv(dt, &sa, da), g.tv(dt, &sb, db));
     c.input(a).input(b)
 }
 
@@ -338,7 +404,7 @@ fn gen_gather(g: &mut G) -> Case {
     let k = g.rng.below(r as u64) as usize;
     let dt = g.num_dtype();
     let x = g.t(dt, &s, -8, 8);
-    let is = g.shape(0, 2);
+    let is = { let l = g.long; g.long = false; let v = g.shape(0, 2); g.long = l; v };
     let n: usize = is.iter().product();
     let idt = g.int_dtype();
     let data = (0..n).map(|_| index_val(g, s[k])).collect();
@@ -460,7 +526,7 @@ fn gen_reduce(g: &mut G) -> Case {
     let s = g.shape(0, 4);
     let r = s.len();
     let dt = g.num_dtype();
-    let x = if op == "ReduceProd" { g.t(dt, &s, -2, 2) } else { g.t(dt, &s, -8, 8) };
+    let x = if op == "ReduceProd" { if g.long { g.t(dt, &s, -1, 1) } else { g.t(dt, &s, -2, 2) } } else { g.t(dt, &s, -8, 8) };
     let ops = g.opset(&[1, 11, 13, 18]);
     let axes_input = if op == "ReduceSum" { ops >= 13 } else { ops >= 18 };
     let mut c = Case::new(op, ops);
@@ -482,6 +548,10 @@ fn gen_reduce(g: &mut G) -> Case {
     }
 }
 
+fn long_axis(s: &[usize]) -> usize {
+    s.iter().enumerate().max_by_key(|(_, d)| **d).map(|(k, _)| k).unwrap_or(0)
+}
+
 fn gen_arg(g: &mut G) -> Case {
     let op = g.rng.pick(&["ArgMax", "ArgMin"]);
     let s = g.shape(1, 4);
@@ -489,7 +559,7 @@ fn gen_arg(g: &mut G) -> Case {
     let dt = g.num_dtype();
     let x = g.t(dt, &s, -3, 3);
     let mut c = Case::new(op, g.opset(&[1, 11, 12, 13]));
-    let k = g.rng.below(r as u64) as usize;
+    let k = if g.long { long_axis(&s) } else { g.rng.below(r as u64) as usize };
     if k != 0 || g.rng.chance(1, 2) { c = c.attr_i("axis", g.neg_or_pos(k, r)); }
     if g.rng.chance(2, 3) { c = c.attr_i("keepdims", g.rng.range(0, 1)); }
     if g.rng.chance(1, 4) { c = c.attr_i("select_last_index", 0); }
@@ -554,8 +624,9 @@ fn gen_topk(g: &mut G) -> Case {
     let k_ax = g.rng.below(r as u64) as usize;
     let d = s[k_ax] as i64;
     let dt = g.num_dtype();
-    let x = g.t(dt, &s, -3, 3);
-    let k = if g.rng.chance(1, 40) { d + 1 } else { g.rng.range(0, d) };
+    // long lanes: a tiny alphabet, so that runs of equal values straddle position k
+    let x = if g.long { g.t(dt, &s, 0, 2) } else { g.t(dt, &s, -3, 3) };
+    let k = if g.long && d > 1 { g.rng.range(1, d - 1) } else if g.rng.chance(1, 40) { d + 1 } else { g.rng.range(0, d) };
     let ops = g.opset(&[1, 10, 11]);
     let mut c = Case::new("TopK", ops).outputs(2);
     if k_ax != r - 1 || g.rng.chance(1, 2) { c = c.attr_i("axis", g.neg_or_pos(k_ax, r)); }
@@ -688,7 +759,7 @@ fn gen_maxpool(g: &mut G) -> Case {
 
 type GenFn = fn(&mut G) -> Case;
 const GENS: &[(&str, GenFn, u32)] = &[
-    ("binary", gen_binary, 8), ("unary", gen_unary, 2), ("where", gen_where, 2), ("transpose", gen_transpose, 2),
+    ("binary", gen_binary, 8), ("divmod", gen_divmod, 2), ("unary", gen_unary, 2), ("where", gen_where, 2), ("transpose", gen_transpose, 2),
     ("reshape", gen_reshape, 3), ("squeeze", gen_squeeze, 2), ("unsqueeze", gen_unsqueeze, 2), ("concat", gen_concat, 2),
     ("split", gen_split, 3), ("slice", gen_slice, 5), ("gather", gen_gather, 2), ("gather_elements", gen_gather_elements, 2),
     ("gather_nd", gen_gather_nd, 2), ("expand", gen_expand, 2), ("tile", gen_tile, 2), ("pad", gen_pad, 4),
@@ -697,9 +768,17 @@ const GENS: &[(&str, GenFn, u32)] = &[
     ("scatter_elements", gen_scatter_elements, 2), ("scatter_nd", gen_scatter_nd, 2), ("maxpool", gen_maxpool, 2),
 ];
 
+/// generators that are also run with long-lane shapes (TopK twice: its selection step is size dependent)
+const LONG_GENS: &[(&str, GenFn)] = &[
+    ("topk", gen_topk), ("topk", gen_topk), ("topk", gen_topk), ("arg", gen_arg), ("arg", gen_arg), ("reduce", gen_reduce),
+    ("reduce", gen_reduce), ("cumsum", gen_cumsum), ("gather", gen_gather), ("gather_elements", gen_gather_elements),
+    ("scatter_elements", gen_scatter_elements), ("slice", gen_slice), ("concat", gen_concat), ("split", gen_split),
+    ("transpose", gen_transpose), ("binary", gen_binary), ("where", gen_where), ("unary", gen_unary),
+];
+
 pub fn generate(seed: u64, n: usize, _tier: &str, only: Option<&str>) -> Vec<Case> {
-    let mut g = G { rng: SplitMix64(seed ^ 0xC15) };
-    let gens: Vec<&(&str, GenFn, u32)> = GENS.iter().filter(|(name, _, _)| only.map(|o| o == *name).unwrap_or(true)).collect();
+    let mut g = G { rng: SplitMix64(seed ^ 0xC15), long: false };
+    let gens: Vec<&(&str, GenFn, u32)> = GENS.iter().filter(|(name, _, _)| only.map(|o| o == *name || o == "long").unwrap_or(true)).collect();
     let total: u32 = gens.iter().map(|x| x.2).sum();
     let mut v = vec![];
     if gens.is_empty() { return v; }
@@ -710,7 +789,14 @@ pub fn generate(seed: u64, n: usize, _tier: &str, only: Option<&str>) -> Vec<Cas
             if pick < w { f = gf; break; }
             pick -= w;
         }
+        // about one case in nine is a "long lane" variant of an operator with a lane / axis loop
+        g.long = only.is_none() && g.rng.chance(1, 9) || only == Some("long");
+        if g.long {
+            let (_, lf) = LONG_GENS[g.rng.below(LONG_GENS.len() as u64) as usize];
+            f = lf;
+        }
         let mut c = f(&mut g);
+        g.long = false;
         c.optimize = g.rng.chance(1, 2);
         v.push(c);
     }
